@@ -101,7 +101,9 @@ def variant_defs(body, local):
                 v = 'None' if 'Option' in c else 'Err'
                 blocks.setdefault(v, []).append(b)
                 continue
-            return None
+            # the result of some other call (variant not known statically): allowed next to known constructions, never mapped
+            blocks.setdefault('?', []).append(b)
+            continue
         if kind != 'assign' or x['lhs']['p'] or x['rv']['rk'] != 'aggregate':
             return None
         agg = x['rv']['agg']
@@ -111,9 +113,9 @@ def variant_defs(body, local):
                 break
         else:
             return None
-    if len(blocks) < 2:
+    if len(blocks) < 2 or not (set(blocks) - {'?'}):
         return None
-    return {v: bs[0] for v, bs in blocks.items() if len(bs) == 1}
+    return {v: bs[0] for v, bs in blocks.items() if len(bs) == 1 and v != '?'}
 
 
 def correlated_origin(body, g):
@@ -158,6 +160,49 @@ def correlated_origin(body, g):
         else:
             return None
     return None
+
+
+def feasible_reach(body, starts, avoid=()):
+    """blocks reachable from `starts` without entering `avoid`, discarding paths that are infeasible because of correlated branches: after a
+    helper was inlined, `helper(..)?` is a switch on a value whose variant was fixed by the block that built it (Ok(..) here, the `?`
+    residual there) - a path that passed the Err construction cannot leave the switch on the Ok edge"""
+    origins = {}
+    for g in range(body.n):
+        if body.blocks[g]['term']['k'] == 'switch':
+            o = correlated_origin(body, g)
+            if o:
+                origins[g] = o
+    interesting = {b for o in origins.values() for b in o.values()}
+    succ = body.succ()
+    avoid = set(avoid)
+    seen = set()
+    st = [(b, frozenset([b]) & interesting if b in interesting else frozenset()) for b in starts]
+    st = [(b, frozenset([b]) if b in interesting else frozenset()) for b in starts]
+    out = set()
+    while st:
+        b, passed = st.pop()
+        if (b, passed) in seen or b in avoid:
+            continue
+        seen.add((b, passed))
+        out.add(b)
+        nxt = list(succ[b])
+        if b in origins:
+            t = body.blocks[b]['term']
+            o = origins[b]
+            hit = [v for v, db in o.items() if db in passed]
+            if len(hit) == 1:
+                v = hit[0]
+                explicit = {val: tgt for val, tgt in t['targets']}
+                nxt = [explicit[v]] if v in explicit else [t['otherwise']]
+        for n in nxt:
+            p2 = passed | {n} if n in interesting else passed
+            # a later construction of the same value supersedes an earlier one
+            if n in interesting:
+                for o in origins.values():
+                    if n in o.values():
+                        p2 = frozenset(x for x in p2 if x == n or x not in o.values())
+            st.append((n, p2))
+    return out
 
 
 def guards(body, bb, _depth=0):
